@@ -4,6 +4,8 @@
 (* input token : [k |-> "NL", ind |-> n]  newline token whose last line is *)
 (*               indented by n columns (tabs already counted as tab_len)   *)
 (*               [k |-> "OPEN"|"CLOSE"|"OTHER", ind |-> 0]                  *)
+(*               [k |-> "NLC", ind |-> _]  newline token that ends in a    *)
+(*               comment or holds no line break (no indentation to read)   *)
 (* output      : "NL" "INDENT" "DEDENT" "OPEN" "CLOSE" "OTHER"              *)
 (* state       : paren (paren_level), lv (indent_level), out, status       *)
 (*               status: "run" | "DedentError" | "CloseUnderflow" | "done" *)
@@ -22,8 +24,13 @@ Dedent(st, ind) ==
   ELSE IF ind # Top(st.lv) THEN [st EXCEPT !.status = "DedentError"]
   ELSE st
 
+\* "NLC": a newline token whose last line is not pure indentation - it ends in a comment (python.lark's _NEWLINE at the end of
+\* a file without a final line break) or holds no line break at all.  A comment line opens and closes nothing (CPython), so the
+\* token passes through (outside brackets) and the level stack stays.  The pinned handle_NL counted the blanks INSIDE the
+\* comment as indentation, and raised IndexError without a line break (hunted defect 29).
 FeedTok(st, t) ==
-  IF t.k = "NL" THEN
+  IF t.k = "NLC" THEN (IF st.paren > 0 THEN st ELSE [st EXCEPT !.out = Append(@, "NL")])
+  ELSE IF t.k = "NL" THEN
      IF st.paren > 0 THEN st                                    \* swallowed inside brackets
      ELSE LET s1 == [st EXCEPT !.out = Append(@, "NL")] IN
           IF t.ind > Top(s1.lv) THEN [s1 EXCEPT !.lv = Append(@, t.ind), !.out = Append(@, "INDENT")]
